@@ -793,6 +793,12 @@ func genPerpOpen(g *G) *Op {
 		ref = sdkmath.NewInt(1_000_000_000)
 	}
 	amt := g.ModestAmount("perpcoll", ref)
+	if g.Int("perpcoll/whale", 0, 7) == 0 {
+		// a position that matters to the pool: collateral of 0.5 % – 3 % of the reserve of the collateral asset
+		if r := reserveOf(amm, collDenom); r.IsPositive() {
+			amt = maxInt(r.MulRaw(int64(g.Int("perpcoll/permille", 5, 30))).QuoRaw(1000), sdkmath.OneInt())
+		}
+	}
 	var lev sdkmath.LegacyDec
 	switch g.Int("plev", 0, 7) {
 	case 0:
